@@ -463,10 +463,26 @@ pub fn jxl(r: &mut Rng) -> Vec<u8> {
         p.extend(r.bytes(n));
         v.extend(bmff_box(b"Exif", &p));
     }
+    // now and then a box written with the 16-byte header form (size field 1, 64-bit size)
+    if r.chance(1, 3) {
+        let n = r.usize(4, 24);
+        let p = r.bytes(n);
+        v.extend(1u32.to_be_bytes());
+        v.extend(b"xml ");
+        v.extend(((16 + p.len()) as u64).to_be_bytes());
+        v.extend(p);
+    }
     let n = r.usize(4, 40);
     let mut cs = vec![0xFF, 0x0A];
     cs.extend(r.bytes(n));
-    v.extend(bmff_box(b"jxlc", &cs));
+    if r.chance(1, 4) {
+        // the last box may run to the end of the file (size field 0)
+        v.extend(0u32.to_be_bytes());
+        v.extend(b"jxlc");
+        v.extend(cs);
+    } else {
+        v.extend(bmff_box(b"jxlc", &cs));
+    }
     v
 }
 
